@@ -58,5 +58,33 @@ MUTANTS = {
    "  def visit_Dict(self, node):\n    return self._visit_strict_expression(node)",
    "  def visit_Dict(self, node):\n    node = self._visit_strict_expression(node)\n    kv = sorted(zip(node.keys, node.values), key=lambda p: p[0] is None)\n"
    "    node.keys = [k for k, _ in kv]\n    node.values = [v for _, v in kv]\n    return node"),
+  # near-miss rules (round 3, seeded C18-E): the field slot compared by something weaker than string equality
+  ('m20_field_matched_by_prefix', _ANF,
+   "    if self.field is ANY or field == self.field:", "    if self.field is ANY or field.startswith(self.field):"),
+  ('m21_field_matched_case_blind', _ANF,
+   "    if self.field is ANY or field == self.field:", "    if self.field is ANY or field.lower() == self.field.lower():"),
+  ('m22_rule_field_substring_of_edge_field', _ANF,
+   "    if self.field is ANY or field == self.field:", "    if self.field is ANY or self.field in field:"),
+  ('m23_edge_field_substring_of_rule_field_nonempty', _ANF,
+   "    if self.field is ANY or field == self.field:", "    if self.field is ANY or (field in self.field and len(self.field) - len(field) < 2):"),
+  # the type slots compared by something other than isinstance
+  ('m24_parent_type_exact_not_isinstance', _ANF,
+   "    if self.parent is ANY or isinstance(parent, self.parent):",
+   "    if self.parent is ANY or type(parent) in (self.parent if isinstance(self.parent, tuple) else (self.parent,)):"),
+  # (the opposite direction - a rule about List catching ListComp children - is not observable in the generated class:
+  # comprehensions are rejected whatever the configuration says, and NamedExpr is not generated)
+  ('m25_child_type_matched_by_name_prefix', _ANF,
+   "    return self.child is ANY or isinstance(child, self.child)",
+   "    return self.child is ANY or isinstance(child, self.child) or any(t.__name__.startswith(type(child).__name__)\n"
+   "        for t in (self.child if isinstance(self.child, tuple) else (self.child,)))"),
+  ('m26_parent_type_matched_by_name_prefix', _ANF,
+   "    if self.parent is ANY or isinstance(parent, self.parent):",
+   "    if self.parent is ANY or isinstance(parent, self.parent) or any(t.__name__.startswith(type(parent).__name__)\n"
+   "        for t in (self.parent if isinstance(self.parent, tuple) else (self.parent,))):"),
+  # a rule that constrains only the field is taken for a catch-all when it is not the last one (cf. seeded C18-F)
+  ('m27_field_only_rule_shadows_rest', _ANF,
+   "      if self._match(pat, parent, field, child):\n        return result(parent, field, child)",
+   "      if self._match(pat, parent, field, child) or (\n          pat is not ANY and pat.parent is ANY and pat.child is ANY and pat is not self._overrides[-1][0]):\n"
+   "        return result(parent, field, child)"),
  ],
 }
